@@ -73,7 +73,7 @@ MseLinear(a, b) == IF b - a <= 2 THEN <<0, 1>>                              \* n
 Mse(a, b) == IF kind = "linear" THEN MseLinear(a, b) ELSE MseConst(a, b)
 \* what C09 claims: every range for the constant fit; for the linear fit the ranges with MORE rows than coefficients (two
 \* here: slope and intercept) - what a criterion reports for a shorter range is its own business (0 in the current code)
-Claimed(a, b) == kind # "linear" \/ b - a > 2
+Claimed(a, b) == SW(a, b) > 0 /\ (kind # "linear" \/ b - a > 2)
 
 NodeValue    == MeanOf(start, end)
 NodeImpurity == Mse(start, end)
